@@ -782,9 +782,19 @@ Quat<T>::setRotation (const Vec3<T>& from, const Vec3<T>& to) IMATH_NOEXCEPT
         // from f0 to h0, then from h0 to t0.
         //
 
-        Vec3<T> h0 = (f0 + t0).normalized ();
+        Vec3<T> s0 = f0 + t0;
+        Vec3<T> h0 = s0.normalized ();
 
-        if ((h0 ^ h0) != 0)
+        //
+        // f0 and t0 are unit vectors only to rounding, so a sum within a
+        // few epsilon of zero has no meaningful direction (it can even be
+        // anti-parallel to f0, which used to produce the zero quaternion):
+        // treat it like the exactly opposite case.
+        //
+
+        const T tiny = T (8) * std::numeric_limits<T>::epsilon ();
+
+        if ((h0 ^ h0) != 0 && (s0 ^ s0) > tiny * tiny)
         {
             setRotationInternal (f0, h0, *this);
 
